@@ -406,6 +406,67 @@ pub fn replay_meuvec(args: &Args) {
     println!("{}", json!({"vectors": t.vectors, "steps": t.steps, "configs": 1, "mismatches": t.mismatches, "bad": t.bad}));
 }
 
+// ---------------------------------------------------------------- long histories of one hash-identified builder (spec/GenStress.tla)
+
+fn sem_build<'a, B: rsdd::builder::sdd::SddBuilder<'a>>(b: &'a B, tt: TT, v: usize, nv: usize, memo: &mut HashMap<(TT, usize), SddPtr<'a>>) -> SddPtr<'a> {
+    if tt == 0 {
+        return SddPtr::PtrFalse;
+    }
+    if tt == full(nv) {
+        return SddPtr::PtrTrue;
+    }
+    if let Some(p) = memo.get(&(tt, v)) {
+        return *p;
+    }
+    let (lo, hi) = (cof(tt, v, false, nv), cof(tt, v, true, nv));
+    let r = if lo == hi {
+        sem_build(b, lo, v + 1, nv, memo)
+    } else {
+        let l = sem_build(b, lo, v + 1, nv, memo);
+        let h = sem_build(b, hi, v + 1, nv, memo);
+        let x = SddPtr::Var(VarLabel::new_usize(v), true);
+        b.or(b.and(x, h), b.and(x.neg(), l))
+    };
+    memo.insert((tt, v), r);
+    r
+}
+
+pub fn replay_stressvec(args: &Args) {
+    use rsdd::builder::sdd::SemanticSddBuilder;
+    let text = std::fs::read_to_string(args.str("in", "")).expect("read vectors");
+    let nv = args.num("nv", 6) as usize;
+    let vecs: Vec<Value> = text.lines().map(|l| serde_json::from_str(l).unwrap()).collect();
+    let mut t = Tally { vectors: vecs.len(), steps: 0, mismatches: 0, bad: vec![] };
+    let labels: Vec<VarLabel> = (0..nv).map(VarLabel::new_usize).collect();
+    let mut configs = 0;
+    for (name, vt) in [("right-linear", VTree::right_linear(&labels)), ("even split", VTree::even_split(&labels, 2))] {
+        configs += 1;
+        let b = SemanticSddBuilder::<{ rsdd::constants::primes::U64_LARGEST }>::new(vt);
+        let mut memo = HashMap::new();
+        for v in &vecs {
+            let (tf, tg) = (tt_of(&v["f"]), tt_of(&v["g"]));
+            t.steps += 1;
+            let r = guarded(|| {
+                let f = sem_build(&b, tf, 0, nv, &mut memo);
+                let g = sem_build(&b, tg, 0, nv, &mut memo);
+                (sdd_tt(f, nv), sdd_tt(g, nv), sdd_tt(b.and(f, g), nv), sdd_tt(b.or(f, g), nv), sdd_tt(b.negate(f), nv))
+            });
+            let ok = match &r {
+                Ok((a, c, x, y, n)) => *a == tf && *c == tg && *x == tt_of(&v["conj"]) && *y == tt_of(&v["disj"]) && *n == (!tf & full(nv)),
+                Err(_) => false,
+            };
+            if !ok {
+                t.mismatches += 1;
+                if t.bad.len() < 10 {
+                    t.bad.push(json!({"cfg": format!("semantic SDD builder, {name} vtree, one builder for the whole history"), "vector": v,
+                                      "got": match r { Ok(x) => json!({"f_g_and_or_neg_tts": [x.0, x.1, x.2, x.3, x.4]}), Err(m) => json!({"panic": m}) }}));
+                }
+            }
+        }
+    }
+    println!("{}", json!({"vectors": t.vectors, "steps": t.steps, "configs": configs, "mismatches": t.mismatches, "bad": t.bad}));
+}
+
 // ---------------------------------------------------------------- weighted counts (spec/GenWmc.tla)
 
 fn weight_spec(v: &Value) -> crate::bdd_rec::WeightSpec {
